@@ -100,7 +100,7 @@ def gen_case12(rng, name, idx):
 
 def generate(rng, tier, seed):
     n = scaled(250 if tier == "quick" else 4000)
-    return [gen_case12(rng, f"c12_{seed}_{k}", k) for k in range(n)]
+    return [gen_case12(rng, f"c12_{seed}_{k}", k) for k in range(n)] + [gen_pair_switch(rng, f"c12_{seed}_ps{k}") for k in range(n // 5)]
 
 
 def sampled(ticks, t0):
@@ -162,7 +162,87 @@ def standalone(case, branch, t0, t1, key, kticks, aticks, bticks, emulate=False,
     return mr
 
 
+def gen_pair_switch(rng, name):
+    """switch_ whose argument is ONE structured value assembled from two independent ports (non-peered), handed to the branches
+    whole: a branch that returns the parameter itself, one that re-assembles it swapped, one that runs nodes on its elements.
+    The key flips in cycles where the elements tick and in cycles where they are only held. Oracle: element j of the output
+    ticks at the selection with the held value of its source element (when it holds one) and from then on exactly when that
+    element ticks, with its value."""
+    from .prog import Case, S
+    end = rng.choice([24, 36])
+    c = Case(name, 0, end)
+    val = rng.choice([1, 2, 3])
+    ks = [(rng.choice([0, 1, 2]), val)]
+    for t in sorted(rng.sample(range(3, end), rng.choice([3, 5, 8]))):
+        if rng.random() < 0.8:
+            val = rng.choice([v for v in (1, 2, 3) if v != val])
+        ks.append((t, val))
+    c.scripts[1] = ks
+    for u in (2, 3):
+        c.scripts[u] = [(t, u * 1000 + t) for t in sorted(rng.sample(range(0, end), rng.choice([4, 8, 14])))]
+    c.graphs["fn0"] = [S("", "RET", "p0")]
+    c.graphs["fn1"] = [S("x", "elem", "p0", "1"), S("y", "elem", "p0", "0"), S("r", "pair", "x", "y"), S("", "RET", "r")]
+    c.graphs["fn2"] = [S("x", "elem", "p0", "0"), S("y", "elem", "p0", "1"), S("u", "pass", "x", uid=100), S("v", "pass", "y", uid=101),
+                       S("r", "pair", "u", "v"), S("", "RET", "r")]
+    c.graphs["main"] = [S("k", "src", uid=1, mode=1), S("a", "src", uid=2, mode=1), S("b", "src", uid=3, mode=1), S("q", "pair", "a", "b"),
+                        S("s", "switch", "k", "q", cases="1:fnp:0,2:fnp:1,3:fnp:2"), S("", "cmirror", "s", uid=50)]
+    c.meta["kind"] = "pair_switch"
+    return c
+
+
+def check_pair_switch(case, tr):
+    from .gen_coll import parse_dumps
+    res = Result(signature=case.text().split("\n", 1)[1])
+    if tr.build_error or not tr.runs or tr.runs[0].error:
+        res.violations.append(Violation(f"build/run failed: {tr.build_error or (tr.runs[0].error if tr.runs else 'no run')}"))
+        return res
+    mirror = {t: d for t, d, _ in parse_dumps(tr.runs[0]).get(50, [])}
+    kt = [(t, v) for t, v in case.scripts[1] if t < case.end]
+    el = {0: dict((t, v) for t, v in case.scripts[2] if t < case.end), 1: dict((t, v) for t, v in case.scripts[3] if t < case.end)}
+    src_of = {1: (0, 1), 2: (1, 0), 3: (0, 1)}          # branch -> source element of output element 0, 1
+    expected = {}                                        # t -> {j: value}
+    cur, held_sel, sel_ticks = None, 0, 0
+    held = {0: None, 1: None}
+    for t in range(case.start, case.end):
+        for j in (0, 1):
+            if t in el[j]:
+                held[j] = el[j][t]
+        newsel = False
+        for tk, v in kt:
+            if tk == t and v != cur:
+                cur, newsel = v, True
+        if cur is None:
+            continue
+        exp = {}
+        for j in (0, 1):
+            sj = src_of[cur][j]
+            if t in el[sj] or (newsel and held[sj] is not None):
+                exp[j] = held[sj]
+        if newsel:
+            sel_ticks += 1
+            if any(t not in el[src_of[cur][j]] and held[src_of[cur][j]] is not None for j in (0, 1)):
+                held_sel += 1
+        if exp:
+            expected[t] = exp
+    V = []
+    for t in sorted(set(expected) | set(mirror)):
+        exp = expected.get(t, {})
+        d = mirror.get(t)
+        got = {j: int(ch["val"]) for j, ch in enumerate(d["ch"]) if ch["m"] and ch["v"]} if d else {}
+        if got != exp and len(V) < 5:
+            V.append(f"t={t}: switch output elements that ticked {got} != expected {exp} (elements tick at the selection with the held value of "
+                     f"their source element and then whenever it ticks)")
+    for m in V:
+        res.violations.append(Violation(m))
+    res.counters = {"structured_argument_switch_ticks": len(expected), "structured_argument_selections": sel_ticks,
+                    "structured_argument_selections_on_held_values": held_sel}
+    res.nontrivial = held_sel >= 1
+    return res
+
+
 def check(case, tr):
+    if case.meta.get("kind") == "pair_switch":
+        return check_pair_switch(case, tr)
     if not case.meta.get("twin") or tr.build_error or not tr.runs:
         return check_one(case, tr, bool(case.meta["reload"]), 50, None)
     # two switch_ calls over the same key, arguments and case table that differ ONLY in reload-on-tick are two nodes
